@@ -128,6 +128,21 @@ Theorem c19_sort_max_items :
 Proof. exact nd_sort_max_prefix. Qed.
 Print Assumptions c19_sort_max_items.
 
+(* and for the code's own layer order (compute_epsilon_net), with only the oracle contract *)
+Theorem c19_sort_max_items_with_epsilon_net :
+  forall (seedf : list nat -> nat) (choosef : list nat -> list nat -> list nat -> nat),
+    (forall front, front <> [] -> (seedf front < length front)%nat) ->
+    (forall front order rem, rem <> [] -> In (choosef front order rem) rem) ->
+  forall (X : list vec) (m : nat),
+    nondominated_sort_max (eps_layer seedf choosef) X m
+    = firstn m (nondominated_sort_flat (eps_layer seedf choosef) X).
+Proof.
+  intros seedf choosef Hs Hc.
+  exact (c19_sort_max_items (eps_layer seedf choosef)
+           (fun l => Permutation_length (eps_layer_perm seedf choosef Hs Hc l))).
+Qed.
+Print Assumptions c19_sort_max_items_with_epsilon_net.
+
 (* MOASHA rung rule, for every priority function [prio], reduction factor,
    bracket state and report: the first rung (highest first) whose milestone is
    reached and that does not hold the trial records the report; the decision is
